@@ -11,7 +11,7 @@ from . import values as V, walk
 DEF_NAMES = ["a", "b", "", "a/b", "m~n", "~1", "~01", "%", "%25", "x y", "é", "0", "01", "#", "?", '"', "\\",
              "\U0001F600", "items", "$ref", "a~0b", "c%d"]
 EXT_URIS = ["http://ex.test/b.json", "http://ex.test/sub/c.json", "http://ex.test/dir/d.json",
-            "http://other.test/e.json"]
+            "http://other.test/e.json", "http://ex.test/B.json"]          # B.json / b.json: paths are case-sensitive
 ROOT_BASES = ["", "", "http://ex.test/root.json", "http://ex.test/dir/root.json", "http://ex.test/root.json#",
               "http://ex.test/sub/deep/r.json"]
 EXOTIC_BASES = ["urn:example:root", "tag:ex.test,2020:root", "x-sch://ex/root.json"]
@@ -244,7 +244,7 @@ def worlds(draw, ninst=3, hostile_names=True, split_paths=False, foreign_ids=Fal
     for pos in draw(st.lists(st.sampled_from(positions), min_size=1, max_size=3, unique=True)):
         if pos == "properties":
             root["properties"] = dict((k, REF()) for k in draw(st.lists(inst_keys, min_size=1, max_size=3, unique=True)))
-            if draw(st.integers(0, 3)) == 0:
+            if draw(st.integers(0, 1)) == 0:
                 root["properties"]["k"] = {"$ref": draw(st.sampled_from(["#", "", "#", ""]))} if not exotic else REF()
                 classes.append("recursive-root")
         elif pos == "items":
@@ -306,6 +306,7 @@ def worlds(draw, ninst=3, hostile_names=True, split_paths=False, foreign_ids=Fal
                 if isinstance(holder[n], dict) and "$ref" not in holder[n] and draw(st.integers(0, 5)) == 0:
                     holder[n] = draw(st.booleans())
                     classes.append("boolean-definition")
+    foreign_instances = []
     if foreign_ids:
         # a retrieved document that declares ANOTHER document's URL as its own id (two documents claiming one
         # identity): only for checks that compare the implementation with itself (C07)
@@ -314,12 +315,23 @@ def worlds(draw, ninst=3, hostile_names=True, split_paths=False, foreign_ids=Fal
             a, b = hd[0], hd[1]
             docs[a][idkw] = b
             classes.append("document-claims-foreign-id")
+            if isinstance(root.get("properties", {}), dict):
+                nb = sorted(docs[b]["definitions"])[0]
+                root.setdefault("properties", {})["f1"] = {"$ref": a}
+                root["properties"]["f2"] = {"$ref": b + "#" + optr.encode(["definitions", nb])}
+                foreign_instances = [{"f1": draw(inst_scalar)}, {"f2": draw(inst_scalar)}]
+            else:
+                foreign_instances = []
     if draw(st.integers(0, 7)) == 0:
         # the OTHER draft family's id keyword is an unknown keyword here: it must not change any base URI
         other = "$id" if idkw == "id" else "id"
         root[other] = draw(st.sampled_from(["http://ex.test/elsewhere/", "http://other.test/q/", "zzz/"]))
         classes.append("foreign-id-keyword")
     xs = draw(st.lists(instances(), min_size=ninst, max_size=ninst))
+    if foreign_instances:
+        xs = list(draw(st.permutations(foreign_instances))) + xs
+    if "recursive-root" in classes:
+        xs[-1] = {"k": draw(st.one_of(inst_scalar, st.dictionaries(inst_keys, inst_scalar, max_size=2)))}
     if split_paths:
         inner = [(u, t) for (u, t) in targets if u != root_doc and t and t[-1] in ("r", "r/1", "~r")]
         if inner and not exotic and isinstance(root.get("properties", {}), dict):
